@@ -30,6 +30,7 @@ ASSUMPTIONS = [
     'HITRAN gaps: master temperature grid = union over ranges; inside a range\'s own temperature span linear interpolation, outside zero',
     'HDF5 cross-section files identify the molecule by their mol_name dataset (as written by ExoMol), which is generated already sanitised',
 ]
+RULE = RULE + ' ' + 'Also: CIA tables of 3-5 temperatures with bands leaving out interior temperatures and noise entries below zero next to the gap, band ranges spelt differently from block to block, a request for a molecule the configured path does not hold before the path is moved on; cases stratified by part.'
 REQUIRED = {'cia:range-spelt-differently': 0.04, 'request-while-absent': 0.03, 'ktable:descending-wavenumbers': 0.03, 'cia:gap-inside-band': 0.01, 'cia:negative-in-gapped-band': 0.006, 'cia:ranges-listed-descending': 0.01, 'cia:overlapping-ranges': 0.006, 'part:xsec': 0.1, 'part:ktable': 0.05, 'part:cia': 0.05, 'part:cache': 0.1}
 # coverage-guided extra (thorough tier): pure-Python taurex modules on this property's path, instrumented by atheris
 FUZZ = {'include': ['taurex.opacity', 'taurex.cia', 'taurex.cache', 'taurex.util.util'], 'runs': 8000, 'workers': 4}
